@@ -8,6 +8,10 @@ key order, applied to three base converters on the real code and once more to it
 
 from __future__ import annotations
 
+import collections
+import collections.abc
+import types
+
 import copy
 import itertools as it
 
@@ -85,11 +89,44 @@ def units(tier, seed):
     return us
 
 
-def check(op, base_idx, pairs, ctx=None):
+class PlainMapping(collections.abc.Mapping):
+    """A Mapping that is not a dict."""
+
+    def __init__(self, items):
+        self._items = list(items)
+
+    def __getitem__(self, key):
+        for k, v in self._items:
+            if k == key:
+                return v
+        raise KeyError(key)
+
+    def __iter__(self):
+        return (k for k, _ in self._items)
+
+    def __len__(self):
+        return len(self._items)
+
+
+MAPTYPES = ["dict", "defaultdict", "proxy", "mapping"]
+
+
+def as_mapping(pairs, maptype):
+    """The remapping as the caller may hold it: any Mapping (the signature says Mapping[str, str])."""
+    if maptype == "defaultdict":
+        return collections.defaultdict(str, pairs)      # subscripting a missing key yields "" instead of raising
+    if maptype == "proxy":
+        return types.MappingProxyType(dict(pairs))       # read-only
+    if maptype == "mapping":
+        return PlainMapping(pairs)
+    return {k: v for k, v in pairs}
+
+
+def check(op, base_idx, pairs, ctx=None, maptype="dict"):
     fails = []
     conv = c11.make_base(base_idx)
     mapping = {k: v for k, v in pairs}
-    where = f"{op}(base {base_idx}, {mapping!r})"
+    where = f"{op}(base {base_idx}, {mapping!r}" + (f" given as a {maptype}" if maptype != "dict" else "") + ")"
     f = remap_uri_prefixes if op == "remap_uri" else rewire
     first_result = None
     for rnd in range(2):
@@ -97,7 +134,7 @@ def check(op, base_idx, pairs, ctx=None):
         w = where + (" applied a second time to its own result" if rnd else "")
         transitive = bool(set(mapping) & set(mapping.values()))
         try:
-            res = f(conv, mapping)
+            res = f(conv, as_mapping(pairs, maptype))
             exc = None
         except Exception as e:  # noqa
             res, exc = None, e
@@ -216,8 +253,10 @@ def run_unit(unit, ctx):
             if i % unit["of"] != unit["part"]:
                 continue
             ctx.count("sweep_cases")
-            for sig, msg in check(case["op"], case["base"], case["pairs"], ctx)[:2]:
-                ctx.violation("C12/" + sig, msg, case)
+            for mt in MAPTYPES:
+                c = dict(case, maptype=mt) if mt != "dict" else case
+                for sig, msg in check(case["op"], case["base"], case["pairs"], ctx, mt)[:2]:
+                    ctx.violation("C12/" + sig, msg, c)
         return
     op, b, n = unit["op"], unit["base"], unit["n"]
     values = URI_NAMES[b] + EXTRA_VALUES
@@ -233,7 +272,7 @@ def run_unit(unit, ctx):
 
 
 def replay(case):
-    return [("C12/" + s, m) for s, m in check(case["op"], case["base"], case["pairs"], None)]
+    return [("C12/" + s, m) for s, m in check(case["op"], case["base"], case["pairs"], None, case.get("maptype", "dict"))]
 
 
 def describe(tier):
